@@ -72,8 +72,11 @@ def run(case):
         if case["copy"] and len(case["recs"]) % 2:
             a.labels()  # some cache state at derivation time
         mapping = {x: y for x, y in case["mapping"]}
+        given = list(mapping.items())
         r = a.rename_labels(mapping=mapping, copy=case["copy"])
         assert (r is a) == (not case["copy"])
+        # the mapping belongs to the caller (it is typically applied to one file after the other)
+        assert list(mapping.items()) == given, "rename_labels edited the caller's mapping: %r -> %r" % (given, list(mapping.items()))
         out = {"renamed": _oann(tb, r), "receiver": triples(tb, a), "renamed_labels": [nm(l) for l in r.labels()]}
         out["generated"] = _oann(tb, mk().rename_labels(generator=_gen(case["gen"])))
         out["rename_tracks"] = _oann(tb, mk().rename_tracks(generator=_gen(case["gen"])))
